@@ -102,6 +102,7 @@ func (ms *memstore) Add(bucket string, filename string, contents []byte, meta *s
 		meta.TimeCreated = meta.Updated
 	}
 
+	simYield("mem.add.bucket")
 	b := ms.getBucket(bucket)
 	b.mu.Lock()
 	defer b.mu.Unlock()
@@ -121,6 +122,7 @@ func (ms *memstore) UpdateMeta(bucket string, filename string, meta *storage.Obj
 	InitScrubbedMeta(meta, filename)
 	meta.Metageneration = metagen
 
+	simYield("mem.update.bucket")
 	b := ms.getBucket(bucket)
 	b.mu.Lock()
 	defer b.mu.Unlock()
